@@ -40,7 +40,15 @@ func bscenarios(thorough bool) []bscen {
 		return &idxSys{a: &stLeases{newStateStore()}, name: "state.Store leases", ents: xEnts}
 	}
 	e1, e2 := xEnts[0], xEnts[1]
+	sm := func() explore.System { s := newDsSys(3); s.conc = true; return s }
+	e3 := xEnts[2]
 	s := []bscen{
+		// subscriber.Manager: TerminateSession works in two locked sections with the (slow) address release in between
+		{"submgr Terminate(e1)|CreateM(e2,mac of e1)", sm, []string{"Create(" + e1 + ")", "Assign(" + e1 + ",0,0)"}, [][]string{{"Terminate(" + e1 + ")"}, {"CreateM(" + e2 + ",0)"}}},
+		{"submgr Terminate(e1)|CreateM(e2,mac of e1),CreateM(e3,mac of e1)", sm, []string{"Create(" + e1 + ")", "Assign(" + e1 + ",0,-)"}, [][]string{{"Terminate(" + e1 + ")"}, {"CreateM(" + e2 + ",0)", "CreateM(" + e3 + ",0)"}}},
+		{"submgr Terminate(e1)|Assign(e2,address of e1)", sm, []string{"Create(" + e1 + ")", "Assign(" + e1 + ",0,0)", "Create(" + e2 + ")"}, [][]string{{"Terminate(" + e1 + ")"}, {"Assign(" + e2 + ",0,0)"}}},
+		{"submgr Terminate(e1)|Assign(e1,other address)", sm, []string{"Create(" + e1 + ")", "Assign(" + e1 + ",0,-)"}, [][]string{{"Terminate(" + e1 + ")"}, {"Assign(" + e1 + ",1,1)"}}},
+		{"submgr Assign(e1,a0)|Assign(e2,a0)", sm, []string{"Create(" + e1 + ")", "Create(" + e2 + ")"}, [][]string{{"Assign(" + e1 + ",0,-)"}, {"Assign(" + e2 + ",0,-)"}}},
 		{"qinq Register(p0,a)|Register(p0,b)", q, nil, [][]string{{"Register(0," + a + ")"}, {"Register(0," + b + ")"}}},
 		{"qinq Register(p1,a)|Unregister(p0)", q, []string{"Register(0," + a + ")"}, [][]string{{"Register(1," + a + ")"}, {"Unregister(0)"}}},
 		{"qinq Register(p0,b)|UnregisterSubscriber(a)", q, []string{"Register(0," + a + ")"}, [][]string{{"Register(0," + b + ")"}, {"UnregisterSubscriber(" + a + ")"}}},
@@ -127,6 +135,7 @@ func runSched(run *report.Run) {
 				tr := append([]string{"pre=" + strings.Join(sc.pre, ";")}, f.Schedule...)
 				rv := report.Violation{Part: name, Kind: v.Kind, Site: v.Site, Detail: v.Detail + " | observations: " + strings.Join(f.Log, " "),
 					Config: "sched", Trace: tr, Extra: map[string]any{"choices": f.Choices}}
+				classify(&rv)
 				run.Violation(rv)
 			}
 		}
